@@ -19,6 +19,9 @@ def run(tier, seed, prop=PROP):
     # model sensitivity: the contract-violating instance must break NoPanic
     vlib.tlc_expect_violation("MCMux", "mux_D_contract.cfg", "NoPanic")
     cov = rep.coverage
+    if tier == "thorough":
+        # vacuity: every action of the model is taken in some configuration (TWUnstick exists only before the fix)
+        cov["action_coverage"] = vlib.action_coverage("MCMux", ["mux_C_timed.cfg", "mux_E_timed.cfg", "mux_C_safety.cfg"], ignore=("TWUnstick",))
     # ---- E2: scenarios (seeded families + TLC-graph-directed schedules) on the real brokers
     n = {"quick": (60, 20, 30, 40), "thorough": (600, 150, 400, 600)}[tier]
     scs = mx.fam_pairs(rng, n[0]) + mx.fam_histories(rng, n[1]) + mx.fam_random(rng, n[2])
@@ -26,6 +29,7 @@ def run(tier, seed, prop=PROP):
     results, outdir = mx.run_driver(binary, scs)
     # ---- E3: every recorded trace must be a behaviour of the spec
     c = mx.classify_and_validate(rep, scs, results, outdir, prop)
+    cov["binding_selftest_mutations_rejected"] = mx.binding_selftest(outdir, scs)
     fams = {}
     for s in scs:
         fams[s["fam"]] = fams.get(s["fam"], 0) + 1
